@@ -274,6 +274,57 @@ Definition fsck_budget (s : rsec) : N := rs_len s / 8.
 Definition fsck (s : rsec) : res unit :=
   r <- root s ;; _ <- fsck_dir FSCK_DEPTH s r (fsck_budget s) ;; Ok tt.
 
+(* Ghost-instrumented fsck: the same computation, which also returns the number of directory entries visited and the
+   deepest nesting of directories entered.  Not part of the code; C12_fsck_counted proves the first component equal to
+   [fsck_dir] / [fsck], so a bound on the counters is a bound on the work of the function itself. *)
+Record cnt := { c_steps : N; c_depth : nat }.
+Definition cnt0 : cnt := {| c_steps := 0; c_depth := 0 |}.
+Section FsckLoopC.
+  Variable s : rsec.
+  Variable below : N -> N -> res N * cnt.
+  Fixpoint fsck_loop_c (es : list N) (b : N) {struct es} : res N * cnt :=
+    match es with
+    | [] => (Ok b, cnt0)
+    | e :: r =>
+      if b =? 0 then (Err EInsanity, cnt0) else
+      match e_name s e with
+      | Ok _ =>
+        match e_entry s e with
+        | Ok en =>
+          let sub := match en with
+                     | EDir o => below o (b - 1)
+                     | EData o => (_ <- data_bytes s o ;; Ok (b - 1), cnt0)
+                     end in
+          match fst sub with
+          | Ok b1 =>
+            let rest := fsck_loop_c r b1 in
+            (fst rest, {| c_steps := 1 + c_steps (snd sub) + c_steps (snd rest);
+                          c_depth := Nat.max (c_depth (snd sub)) (c_depth (snd rest)) |})
+          | Err x => (Err x, {| c_steps := 1 + c_steps (snd sub); c_depth := c_depth (snd sub) |})
+          | Fault f => (Fault f, {| c_steps := 1 + c_steps (snd sub); c_depth := c_depth (snd sub) |})
+          end
+        | Err x => (Err x, {| c_steps := 1; c_depth := 0 |})
+        | Fault f => (Fault f, {| c_steps := 1; c_depth := 0 |})
+        end
+      | Err x => (Err x, {| c_steps := 1; c_depth := 0 |})
+      | Fault f => (Fault f, {| c_steps := 1; c_depth := 0 |})
+      end
+    end.
+End FsckLoopC.
+Fixpoint fsck_dir_c (d : nat) (s : rsec) (off b : N) {struct d} : res N * cnt :=
+  match d with
+  | O => (Err EInsanity, cnt0)
+  | S d' =>
+    let r := fsck_loop_c s (fsck_dir_c d' s) (entries s off) b in
+    (fst r, {| c_steps := c_steps (snd r); c_depth := S (c_depth (snd r)) |})
+  end.
+Definition fsck_c (s : rsec) : res unit * cnt :=
+  match root s with
+  | Ok r => (_ <- fst (fsck_dir_c FSCK_DEPTH s r (fsck_budget s)) ;; Ok tt, snd (fsck_dir_c FSCK_DEPTH s r (fsck_budget s)))
+  | Err e => (Err e, cnt0)
+  | Fault f => (Fault f, cnt0)
+  end.
+
 (* as it stood: plain recursion; the fuel stands for the machine stack *)
 Fixpoint fsck_dir_orig (fuel : nat) (s : rsec) (off : N) {struct fuel} : res unit :=
   match fuel with
